@@ -879,7 +879,8 @@ Lemma arr_del_ok : forall s L p idx count,
   Inv (heap_of s) L -> live_kind (heap_of s) p KArray -> size_t idx -> size_t count ->
   res_ok s (fun _ => L) (arr_del s p idx count).
 Proof.
-  intros s L p idx count I (n & F & K) [I0 I1] [C0 C1]. unfold arr_del. rewrite F, K. simpl.
+  intros s L p idx count I (n & F & K) [I0 I1] [C0 C1]. unfold arr_del. rewrite F, K.
+  cbv beta iota zeta. change (negb true) with false. cbv beta iota.
   replace ((idx <? 0) || (SIZE_MAX <? idx) || (count <? 0) || (SIZE_MAX <? count)) with false by lia.
   assert (FAIL : res_ok s (fun _ => L) (ROk s (-1) [])).
   { exists s, (-1), []. split; [reflexivity|]. split; [auto|]. split; [auto|]. split; [apply hstruct_refl|auto]. }
@@ -889,8 +890,453 @@ Proof.
               (kid_ids (zfirstn count (zskipn idx (children n)))) I F) as (s' & ret & evs & E & R).
   - intros j. rewrite cntk_app, (zskipn_add _ idx count I0 C0).
     rewrite (cntk_split (children n) idx j), (cntk_split (zskipn idx (children n)) count j).
-    unfold cntk at 5. simpl. lia.
+    unfold cntk. simpl. lia.
   - simpl. auto.
   - exists s', ret, evs. split; [auto|]. destruct R as (R1 & R2).
     unfold Ltransfer in R1. simpl in R1. destruct (ret =? 0); auto.
+Qed.
+
+(* ------------------------------------------------------------------ state invariant *)
+Definition SInv (s : state) (L : ledger) : Prop :=
+  Inv (heap_of s) L /\ (forall i, live (heap_of s) i -> i < nxt s) /\ 0 < nxt s.
+
+Definition grows (s s' : state) (keep : id -> Prop) : Prop :=
+  nxt s <= nxt s' /\
+  (forall j n, keep j -> hfind (heap_of s) j = Some n -> hfind (heap_of s') j = Some n) /\
+  (forall j, hfind (heap_of s) j = None -> hfind (heap_of s') j <> None -> nxt s <= j < nxt s').
+
+Lemma grows_refl : forall s keep, grows s s keep.
+Proof. intros. split; [lia|]. split; [auto|]. intros. congruence. Qed.
+
+Lemma grows_trans : forall s s1 s2 keep, grows s s1 keep -> grows s1 s2 keep -> grows s s2 keep.
+Proof.
+  intros s s1 s2 keep (A1 & A2 & A3) (B1 & B2 & B3). split; [lia|]. split; [auto|].
+  intros j H H2. destruct (hfind (heap_of s1) j) eqn:E.
+  - assert (nxt s <= j < nxt s1) by (apply A3; congruence). lia.
+  - assert (nxt s1 <= j < nxt s2) by (apply B3; auto). lia.
+Qed.
+
+Lemma grows_weaken : forall s s' (k1 k2 : id -> Prop), (forall j, k2 j -> k1 j) -> grows s s' k1 -> grows s s' k2.
+Proof. intros s s' k1 k2 W (A & B & C). split; [auto|]. split; [|auto]. intros. apply B; auto. Qed.
+
+Lemma no_inedge_no_reach : forall h c p, (forall a, ~ edge h a p) -> reach h c p -> c = p.
+Proof.
+  intros h c p NE R. induction R; [reflexivity|].
+  specialize (IHR NE). subst m. exfalso. apply (NE a H).
+Qed.
+
+Lemma sole_owner_no_inedge : forall h L p m, Inv h L -> hfind h p = Some m -> rc m = 1 -> L p >= 1 ->
+  forall a, ~ edge h a p.
+Proof.
+  intros h L p m I F R1 LP a (n & FA & X).
+  pose proof (indeg_ge_edge h a n p (inv_nodup _ _ I) FA).
+  apply cnt_pos_in in X. fold (cntk (children n) p) in X.
+  destruct (inv_rc _ _ I p m F). lia.
+Qed.
+
+Lemma attach_ok : forall s L me m k v,
+  Inv (heap_of s) L -> hfind (heap_of s) me = Some m -> transfer_ok (heap_of s) L me v ->
+  Inv (heap_of (attach s me k v)) (upd_opt L v (-1)) /\ nxt (attach s me k v) = nxt s /\
+  hfind (heap_of (attach s me k v)) me = Some (set_children m (children m ++ [(k, v)])) /\
+  (forall j, j <> me -> hfind (heap_of (attach s me k v)) j = hfind (heap_of s) j).
+Proof.
+  intros s L me m k v I F TR. unfold attach. rewrite F. cbn [heap_of nxt].
+  destruct (inv_container_op _ L me m (children m ++ [(k, v)]) v [] I F) as (h' & evs & E & I' & _); auto.
+  - intros j. rewrite cntk_app, cntk_cons. simpl. change (cntk [] j) with 0. lia.
+  - unfold release_list in E. simpl in E. inversion E; subst. split; [auto|]. split; [auto|].
+    split; [rewrite hfind_hset, Z.eqb_refl; reflexivity|].
+    intros j NE. rewrite hfind_hset. destruct (me =? j) eqn:X; [apply Z.eqb_eq in X; congruence|reflexivity].
+Qed.
+
+(* ------------------------------------------------------------------ deep copy *)
+Section Copy.
+  Variable h0 : heap.
+  Variable rk : id -> nat.
+  Variable custom : bool.
+  Hypothesis R0 : forall i n c, hfind h0 i = Some n -> In c (kid_ids (children n)) -> (rk c < rk i)%nat.
+  Hypothesis K0 : forall i n c, hfind h0 i = Some n -> In c (kid_ids (children n)) -> live h0 c.
+
+  Definition hs_ok (hs : heap) (b : nat) : Prop :=
+    (forall i n, hfind hs i = Some n -> hfind h0 i = Some n) /\
+    (forall x n, hfind h0 x = Some n -> (rk x < b)%nat -> hfind hs x = Some n).
+
+  Definition base_ok (s : state) : Prop := forall i n, hfind h0 i = Some n -> hfind (heap_of s) i = Some n.
+
+  Definition copy_spec (C : state -> id -> cres) (b : nat) : Prop :=
+    forall s L c, SInv s L -> base_ok s -> live h0 c -> (rk c < b)%nat ->
+      match C s c with
+      | COk s' r => SInv s' (upd L r 1) /\ nxt s <= r < nxt s' /\ grows s s' (fun _ => True)
+      | CFail => True
+      | CUB => False
+      | CFuel => False
+      end.
+
+  Lemma copy_kids_ok : forall C b me, copy_spec C b ->
+    forall cs s L, SInv s L -> base_ok s -> L me = 1 ->
+      (exists m, hfind (heap_of s) me = Some m /\ rc m = 1) -> hfind h0 me = None ->
+      (forall x, In x (kid_ids cs) -> live h0 x /\ (rk x < b)%nat) ->
+      match copy_kids C me cs s with
+      | KOk s' => SInv s' L /\ (exists m, hfind (heap_of s') me = Some m /\ rc m = 1) /\
+                  grows s s' (fun j => j <> me)
+      | KFail => True
+      | KUB => False
+      | KFuel => False
+      end.
+  Proof.
+    intros C b me CS. induction cs as [|[k [c|]] t IH]; intros s L SI BO LM (m & FM & RM) H0M KS; simpl.
+    - split; [auto|]. split; [eauto|apply grows_refl].
+    - destruct SI as (I & IDS & NP).
+      assert (KC : live h0 c /\ (rk c < b)%nat) by (apply KS; simpl; auto).
+      pose proof (CS s L c (conj I (conj IDS NP)) BO (proj1 KC) (proj2 KC)) as SP.
+      destruct (C s c) as [s1 r| | |]; auto.
+      destruct SP as ((I1 & IDS1 & NP1) & RR & (G1 & G2 & G3)).
+      assert (MEL : me < nxt s) by (apply IDS; unfold live; congruence).
+      assert (RNE : r <> me) by lia.
+      assert (FM1 : hfind (heap_of s1) me = Some m) by (apply G2; auto).
+      assert (TR : transfer_ok (heap_of s1) (upd L r 1) me (Some r)).
+      { simpl. split.
+        - rewrite upd_same. pose proof (inv_L _ _ I r). lia.
+        - intro X. apply RNE. apply (no_inedge_no_reach (heap_of s1) r me); auto.
+          apply (sole_owner_no_inedge _ (upd L r 1) me m); auto.
+          rewrite upd_other by auto. lia. }
+      destruct (attach_ok s1 (upd L r 1) me m k (Some r) I1 FM1 TR) as (I2 & N2 & F2 & O2).
+      set (s2 := attach s1 me k (Some r)) in *.
+      assert (SI2 : SInv s2 L).
+      { split; [|split].
+        - eapply Inv_ext; [|exact I2]. intros j. simpl. unfold upd. destruct (j =? r); lia.
+        - intros j LJ. rewrite N2. apply IDS1. unfold live in *.
+          destruct (Z.eq_dec j me); [subst; congruence|]. rewrite <- O2; auto.
+        - lia. }
+      assert (BO2 : base_ok s2).
+      { intros i n Hi. destruct (Z.eq_dec i me); [subst; congruence|].
+        rewrite O2 by auto. apply G2; auto. }
+      specialize (IH s2 L SI2 BO2 LM).
+      destruct (copy_kids C me t s2) as [s3| | |]; auto.
+      + destruct IH as (SI3 & M3 & GR3); auto.
+        * exists (set_children m (children m ++ [(k, Some r)])). split; [auto|simpl; auto].
+        * intros x X. apply KS. simpl. auto.
+        * split; [auto|]. split; [auto|].
+          eapply grows_trans; [|exact GR3].
+          split; [lia|]. split.
+          -- intros j n NJ Hj. rewrite O2 by auto. apply G2; auto.
+          -- intros j Hj Hj2. destruct (Z.eq_dec j me); [subst; congruence|].
+             rewrite O2 in Hj2 by auto. rewrite N2. apply G3; auto.
+      + apply IH; auto.
+        * exists (set_children m (children m ++ [(k, Some r)])). split; [auto|simpl; auto].
+        * intros x X. apply KS. simpl. auto.
+      + apply IH; auto.
+        * exists (set_children m (children m ++ [(k, Some r)])). split; [auto|simpl; auto].
+        * intros x X. apply KS. simpl. auto.
+    - destruct SI as (I & IDS & NP).
+      destruct (attach_ok s L me m k None I FM Logic.I) as (I2 & N2 & F2 & O2).
+      set (s2 := attach s me k None) in *.
+      assert (SI2 : SInv s2 L).
+      { split; [exact I2|split].
+        - intros j LJ. rewrite N2. apply IDS. unfold live in *.
+          destruct (Z.eq_dec j me); [subst; congruence|]. rewrite <- O2; auto.
+        - lia. }
+      assert (BO2 : base_ok s2).
+      { intros i n Hi. destruct (Z.eq_dec i me); [subst; congruence|]. rewrite O2 by auto. apply BO; auto. }
+      specialize (IH s2 L SI2 BO2 LM).
+      assert (M2 : exists m0, hfind (heap_of s2) me = Some m0 /\ rc m0 = 1).
+      { exists (set_children m (children m ++ [(k, None)])). split; [auto|simpl; auto]. }
+      specialize (IH M2 H0M KS).
+      destruct (copy_kids C me t s2) as [s3| | |]; auto.
+      destruct IH as (SI3 & M3 & GR3). split; [auto|]. split; [auto|].
+      eapply grows_trans; [|exact GR3]. split; [lia|]. split.
+      + intros j n NJ Hj. rewrite O2; auto.
+      + intros j Hj Hj2. destruct (Z.eq_dec j me); [subst; congruence|]. rewrite O2 in Hj2 by auto. congruence.
+  Qed.
+End Copy.
+
+Lemma copy_f_spec : forall h0 rk custom,
+  (forall i n c, hfind h0 i = Some n -> In c (kid_ids (children n)) -> (rk c < rk i)%nat) ->
+  (forall i n c, hfind h0 i = Some n -> In c (kid_ids (children n)) -> live h0 c) ->
+  forall f hs b, hs_ok h0 rk hs b -> (length hs < f)%nat -> copy_spec h0 rk (copy_f f custom hs) b.
+Proof.
+  intros h0 rk custom R0 K0. induction f as [|f IH]; intros hs b HS LEN; [lia|].
+  intros s L c SI BO LV RC. simpl.
+  destruct HS as (HS1 & HS2).
+  destruct (hfind h0 c) as [n|] eqn:F0; [|exfalso; apply LV; auto].
+  rewrite (HS2 c n F0 RC).
+  destruct (negb custom && has_cb n); [exact Logic.I|].
+  destruct SI as (I & IDS & NP).
+  set (me := nxt s).
+  assert (FME : hfind (heap_of s) me = None).
+  { destruct (hfind (heap_of s) me) eqn:E; [|reflexivity].
+    assert (me < nxt s) by (apply IDS; unfold live; congruence). unfold me in *. lia. }
+  assert (H0ME : hfind h0 me = None).
+  { destruct (hfind h0 me) eqn:E; [|reflexivity]. rewrite (BO me _ E) in FME. discriminate. }
+  set (nd := mkNode 1 (nkind n) [] (if custom then Some 0 else None)).
+  set (s1 := mkSt ((me, nd) :: heap_of s) (me + 1)).
+  assert (SI1 : SInv s1 (upd L me 1)).
+  { split; [apply inv_alloc; auto|]. split; [|simpl; unfold me; lia].
+    intros j LJ. unfold live in LJ. simpl in LJ. simpl. destruct (me =? j) eqn:E.
+    - apply Z.eqb_eq in E. lia.
+    - assert (j < nxt s) by (apply IDS; auto). unfold me. lia. }
+  assert (BO1 : base_ok h0 s1).
+  { intros i m Hi. simpl. destruct (me =? i) eqn:E; [apply Z.eqb_eq in E; subst; congruence|apply BO; auto]. }
+  assert (HS' : hs_ok h0 rk (hdel hs c) (rk c)).
+  { split.
+    - intros i m Hi. rewrite hfind_hdel in Hi. destruct (c =? i); [discriminate|auto].
+    - intros x m Hx RX. rewrite hfind_hdel. destruct (c =? x) eqn:E; [apply Z.eqb_eq in E; subst; lia|].
+      apply HS2; auto. lia. }
+  assert (LEN' : (length (hdel hs c) < f)%nat).
+  { assert (hfind hs c <> None) by (rewrite (HS2 c n F0 RC); congruence).
+    pose proof (length_hdel_lt hs c H). lia. }
+  pose proof (copy_kids_ok h0 rk (copy_f f custom (hdel hs c)) (rk c) me (IH _ _ HS' LEN')
+                (children n) s1 (upd L me 1) SI1 BO1) as KO.
+  destruct (copy_kids (copy_f f custom (hdel hs c)) me (children n) s1) as [s'| | |] eqn:CK.
+  - destruct KO as (SI' & _ & (G1 & G2 & G3)).
+    + rewrite upd_same. rewrite (inv_Ldead _ _ I me FME). lia.
+    + exists nd. split; [simpl; rewrite Z.eqb_refl; reflexivity|reflexivity].
+    + exact H0ME.
+    + intros x X. split; [apply (K0 c n x F0 X)|apply (R0 c n x F0 X)].
+    + split; [auto|]. simpl in G1. split; [unfold me in *; lia|].
+      split; [unfold me in *; lia|]. split.
+      * intros j m _ Hj. apply G2.
+        -- intro; subst j. congruence.
+        -- simpl. destruct (me =? j) eqn:E; [apply Z.eqb_eq in E; subst; congruence|auto].
+      * intros j Hj Hj2. destruct (Z.eq_dec j me); [subst; unfold me in *; lia|].
+        assert (nxt s1 <= j < nxt s').
+        { apply G3; auto. simpl. destruct (me =? j) eqn:E; [apply Z.eqb_eq in E; congruence|auto]. }
+        simpl in H. unfold me in *. lia.
+  - exact Logic.I.
+  - apply KO; auto.
+    + rewrite upd_same. rewrite (inv_Ldead _ _ I me FME). lia.
+    + exists nd. split; [simpl; rewrite Z.eqb_refl; reflexivity|reflexivity].
+    + intros x X. split; [apply (K0 c n x F0 X)|apply (R0 c n x F0 X)].
+  - apply KO; auto.
+    + rewrite upd_same. rewrite (inv_Ldead _ _ I me FME). lia.
+    + exists nd. split; [simpl; rewrite Z.eqb_refl; reflexivity|reflexivity].
+    + intros x X. split; [apply (K0 c n x F0 X)|apply (R0 c n x F0 X)].
+Qed.
+
+(* ------------------------------------------------------------------ one step *)
+Record SFacts (s s' : state) (evs : list ev) : Prop := mkSF {
+  sf_nxt : nxt s <= nxt s';
+  sf_fresh : forall j, hfind (heap_of s) j = None -> hfind (heap_of s') j <> None -> nxt s <= j < nxt s';
+  sf_log : forall j, In j (dids evs) <-> (hfind (heap_of s) j <> None /\ hfind (heap_of s') j = None);
+  sf_nodup : NoDup (dids evs);
+  sf_cb : forall j c, In (EDestroy j c) evs -> exists n, hfind (heap_of s) j = Some n /\ cb n = c
+}.
+
+Definition step_good (s : state) (L : ledger) (o : op) : Prop :=
+  exists s' ret evs, step s o = ROk s' ret evs /\
+                     SInv s' (ledger_step (heap_of s) L o ret) /\ SFacts s s' evs.
+
+Lemma sfacts_of_hstruct : forall s s' evs,
+  nxt s' = nxt s -> HStruct (heap_of s) (heap_of s') evs -> SFacts s s' evs.
+Proof.
+  intros s s' evs N [A B C D]. constructor; auto; try lia.
+  intros j H H2. exfalso. apply H2. auto.
+Qed.
+
+Lemma sinv_of_hstruct : forall s L s' L' evs,
+  SInv s L -> Inv (heap_of s') L' -> nxt s' = nxt s -> HStruct (heap_of s) (heap_of s') evs -> SInv s' L'.
+Proof.
+  intros s L s' L' evs (I & IDS & NP) I' N HS. split; [auto|]. split; [|lia].
+  intros j LJ. rewrite N. apply IDS. intro X. apply LJ. apply (hs_dead _ _ _ HS). auto.
+Qed.
+
+Lemma sfacts_of_grows : forall s s', grows s s' (fun _ => True) -> SFacts s s' [].
+Proof.
+  intros s s' (A & B & C). constructor; auto.
+  - intros j. simpl. split; [tauto|]. intros [X Y]. destruct (hfind (heap_of s) j) eqn:E; [|congruence].
+    rewrite (B j n Logic.I E) in Y. discriminate.
+  - constructor.
+  - intros j c X. simpl in X. tauto.
+Qed.
+
+Lemma res_ok_good : forall s L L' r, SInv s L -> res_ok s L' r ->
+  exists s' ret evs, r = ROk s' ret evs /\ SInv s' (L' ret) /\ SFacts s s' evs.
+Proof.
+  intros s L L' r SI (s' & ret & evs & E & I' & N & HS & _).
+  exists s', ret, evs. split; [auto|]. split; [eapply sinv_of_hstruct; eauto|apply sfacts_of_hstruct; auto].
+Qed.
+
+Lemma hstruct_hset : forall h i n n' evs, hfind h i = Some n -> dids evs = [] ->
+  (forall j c, ~ In (EDestroy j c) evs) -> HStruct h (hset h i n') evs.
+Proof.
+  intros h i n n' evs F DE NE. constructor.
+  - intros j H. rewrite hfind_hset. destruct (i =? j) eqn:E; [apply Z.eqb_eq in E; congruence|auto].
+  - intros j. rewrite DE, hfind_hset. simpl. split; [tauto|]. intros [A B]. destruct (i =? j); congruence.
+  - rewrite DE. constructor.
+  - intros j c X. exfalso. apply (NE j c X).
+Qed.
+
+Lemma dec_val_nonneg : forall l acc, forallb is_digit l = true -> 0 <= acc -> 0 <= dec_val acc l.
+Proof.
+  induction l; intros acc H A; simpl in *; [auto|].
+  apply andb_true_iff in H. destruct H as [D R]. apply IHl; auto. unfold is_digit in D.
+  apply andb_true_iff in D. destruct D as [D1 D2]. apply Z.leb_le in D1. lia.
+Qed.
+
+Lemma valid_index_range : forall t idx, valid_index t = Some idx -> size_t idx.
+Proof.
+  intros t idx H. unfold size_t. unfold valid_index in H.
+  destruct t as [|b [|b2 r]]; [discriminate| |].
+  - destruct (is_digit b) eqn:D; [|discriminate]. inversion H. subst idx. unfold is_digit in D.
+    apply andb_true_iff in D. destruct D as [D1 D2]. apply Z.leb_le in D1. apply Z.leb_le in D2.
+    unfold SIZE_MAX. lia.
+  - destruct (b =? 48); [discriminate|].
+    destruct (forallb is_digit (b :: b2 :: r)) eqn:D; [|discriminate].
+    pose proof (dec_val_nonneg (b :: b2 :: r) 0 D ltac:(lia)) as NN.
+    remember (dec_val 0 (b :: b2 :: r)) as d. clear Heqd.
+    assert (E : idx = Z.min d UINT64_MAX) by congruence.
+    subst idx. unfold SIZE_MAX, UINT64_MAX. lia.
+Qed.
+
+Lemma ptr_target_kinds : forall h r path,
+  match ptr_target h r path with
+  | PTObj p _ => live_kind h p KObject
+  | PTArrAdd p => live_kind h p KArray
+  | PTArrPut p idx => live_kind h p KArray /\ size_t idx
+  | _ => True
+  end.
+Proof.
+  intros h r path. unfold ptr_target. destruct path as [[|t toks]|]; auto.
+  generalize (removelast (t :: toks)) (last (t :: toks) []). intros pre lastt.
+  destruct (ptr_walk h (Some r) pre) as [[p|]|]; auto.
+  destruct (hfind h p) as [n|] eqn:F; auto.
+  destruct (nkind n) eqn:K; auto.
+  - destruct (keq lastt [45]).
+    + exists n. split; [auto|]. unfold is_kind. rewrite K. reflexivity.
+    + destruct (valid_index lastt) eqn:V; auto. split.
+      * exists n. split; [auto|]. unfold is_kind. rewrite K. reflexivity.
+      * eapply valid_index_range; eauto.
+  - destruct (valid_escaping lastt); auto.
+    exists n. split; [auto|]. unfold is_kind. rewrite K. reflexivity.
+Qed.
+
+Lemma good_of_res_ok : forall s L o L',
+  SInv s L -> res_ok s L' (step s o) ->
+  (forall ret, ledger_step (heap_of s) L o ret = L' ret) -> step_good s L o.
+Proof.
+  intros s L o L' SI R EQ. destruct (res_ok_good s L L' _ SI R) as (s' & ret & evs & E & SI' & SF).
+  exists s', ret, evs. rewrite EQ. auto.
+Qed.
+
+Lemma new_good : forall s L k, SInv s L -> step_good s L (ONew k).
+Proof.
+  intros s L k (I & IDS & NP).
+  assert (F : hfind (heap_of s) (nxt s) = None).
+  { destruct (hfind (heap_of s) (nxt s)) eqn:E; [|reflexivity].
+    assert (nxt s < nxt s) by (apply IDS; unfold live; congruence). lia. }
+  exists (mkSt ((nxt s, mkNode 1 k [] (Some 0)) :: heap_of s) (nxt s + 1)), (nxt s), [].
+  split; [reflexivity|]. split.
+  - split; [apply inv_alloc; auto|]. split; [|simpl; lia].
+    intros j LJ. unfold live in LJ. simpl in *. destruct (nxt s =? j) eqn:E.
+    + apply Z.eqb_eq in E. lia.
+    + assert (j < nxt s) by (apply IDS; auto). lia.
+  - apply sfacts_of_grows. split; [simpl; lia|]. split.
+    + intros j n _ H. simpl. destruct (nxt s =? j) eqn:E; [apply Z.eqb_eq in E; subst; congruence|auto].
+    + intros j H H2. simpl in *. destruct (nxt s =? j) eqn:E; [apply Z.eqb_eq in E; lia|congruence].
+Qed.
+
+Lemma get_good : forall s L i, SInv s L -> live (heap_of s) i -> step_good s L (OGet i).
+Proof.
+  intros s L i SI LV. pose proof SI as (I & IDS & NP).
+  destruct (hfind (heap_of s) i) as [n|] eqn:F; [|exfalso; apply LV; auto].
+  assert (HS : HStruct (heap_of s) (hset (heap_of s) i (set_rc n (rc n + 1))) []).
+  { apply (hstruct_hset _ i n); auto. }
+  exists (mkSt (hset (heap_of s) i (set_rc n (rc n + 1))) (nxt s)), i, [].
+  split; [simpl; unfold get_node; rewrite F; reflexivity|]. split.
+  - eapply sinv_of_hstruct; eauto. simpl.
+    destruct (inv_rc _ _ I i n F). pose proof (inv_L _ _ I i).
+    apply (inv_same_children _ L i n); auto; simpl; lia.
+  - apply sfacts_of_hstruct; auto.
+Qed.
+
+Lemma put_good : forall s L i, SInv s L -> L i >= 1 -> step_good s L (OPut i).
+Proof.
+  intros s L i SI LI. pose proof SI as (I & IDS & NP).
+  destruct (put_h_ok (heap_of s) L i I LI Logic.I) as (h' & evs & b & E & I' & _).
+  destruct (put_h_struct _ _ _ _ _ E) as (PS & _).
+  exists (mkSt h' (nxt s)), (if b then 1 else 0), evs.
+  split; [simpl; unfold put_node; rewrite E; reflexivity|].
+  assert (HS : HStruct (heap_of s) h' evs) by (apply hstruct_of_ps; auto).
+  split; [eapply sinv_of_hstruct; eauto|apply sfacts_of_hstruct; auto].
+Qed.
+
+Lemma setud_good : forall s L i c, SInv s L -> live (heap_of s) i -> step_good s L (OSetUd i c).
+Proof.
+  intros s L i c SI LV. pose proof SI as (I & IDS & NP).
+  destruct (hfind (heap_of s) i) as [n|] eqn:F; [|exfalso; apply LV; auto].
+  set (evs := match cb n with Some t => [EUser i t] | None => [] end).
+  assert (HS : HStruct (heap_of s) (hset (heap_of s) i (set_cb n c)) evs).
+  { apply (hstruct_hset _ i n); auto.
+    - unfold evs. destruct (cb n); reflexivity.
+    - intros j x X. unfold evs in X. destruct (cb n); simpl in X; [destruct X; [discriminate|tauto]|tauto]. }
+  exists (mkSt (hset (heap_of s) i (set_cb n c)) (nxt s)), 0, evs.
+  split; [simpl; unfold set_ud; rewrite F; reflexivity|]. split.
+  - eapply sinv_of_hstruct; eauto. simpl.
+    destruct (inv_rc _ _ I i n F). pose proof (inv_L _ _ I i).
+    eapply Inv_ext; [|apply (inv_same_children _ L i n (set_cb n c) 0); auto; simpl; lia].
+    intros j. unfold upd. destruct (j =? i); lia.
+  - apply sfacts_of_hstruct; auto.
+Qed.
+
+Lemma use_good : forall s L i, SInv s L -> live (heap_of s) i -> step_good s L (OUse i).
+Proof.
+  intros s L i SI LV. destruct (hfind (heap_of s) i) as [n|] eqn:F; [|exfalso; apply LV; auto].
+  exists s, 0, []. split; [simpl; unfold use_node; rewrite F; reflexivity|]. split; [auto|].
+  apply sfacts_of_hstruct; [auto|apply hstruct_refl].
+Qed.
+
+Lemma copy_good : forall s L src cu, SInv s L -> live (heap_of s) src -> step_good s L (OCopy src cu).
+Proof.
+  intros s L src cu SI LV. pose proof SI as (I & IDS & NP).
+  destruct (inv_rank _ _ I) as [rk R].
+  assert (HS : hs_ok (heap_of s) rk (heap_of s) (S (rk src))) by (split; auto).
+  pose proof (copy_f_spec (heap_of s) rk cu R (inv_kids _ _ I) (S (length (heap_of s))) (heap_of s)
+                (S (rk src)) HS ltac:(lia) s L src SI ltac:(intros i n H; exact H) LV ltac:(lia)) as SP.
+  unfold step_good. simpl. unfold deep_copy.
+  destruct (copy_f (S (length (heap_of s))) cu (heap_of s) s src) as [s' r| | |]; try contradiction.
+  - destruct SP as (SI' & RR & G). exists s', r, []. split; [reflexivity|].
+    replace (0 <=? r) with true by lia. split; [auto|apply sfacts_of_grows; auto].
+  - exists s, (-1), []. split; [reflexivity|]. simpl. split; [auto|].
+    apply sfacts_of_hstruct; [auto|apply hstruct_refl].
+Qed.
+
+Lemma ptrset_good : forall s L r path v,
+  SInv s L -> admissible s L (OPtrSet r path v) -> step_good s L (OPtrSet r path v).
+Proof.
+  intros s L r path v SI (LV & A). pose proof SI as (I & IDS & NP).
+  destruct (hfind (heap_of s) r) as [n|] eqn:F; [|exfalso; apply LV; auto].
+  pose proof (ptr_target_kinds (heap_of s) r path) as K.
+  unfold step_good. simpl. unfold ptr_set. rewrite F.
+  destruct (ptr_target (heap_of s) r path) as [| |p k|p|p idx] eqn:T.
+  - exists s, (-1), []. split; [reflexivity|]. simpl. split; [auto|].
+    apply sfacts_of_hstruct; [auto|apply hstruct_refl].
+  - destruct (put_good s L r SI A) as (s' & ret & evs & E & SI' & SF). simpl in E. rewrite E.
+    exists s', 0, evs. split; [reflexivity|]. simpl. simpl in SI'. auto.
+  - destruct (res_ok_good s L _ _ SI (obj_add_ok s L p k v I K A)) as (s' & ret & evs & E & SI' & SF).
+    exists s', ret, evs. split; [auto|]. split; [|auto]. unfold Ltransfer in SI'. destruct (ret =? 0); auto.
+  - destruct (res_ok_good s L _ _ SI (arr_add_ok s L p v I K A)) as (s' & ret & evs & E & SI' & SF).
+    exists s', ret, evs. split; [auto|]. split; [|auto]. unfold Ltransfer in SI'. destruct (ret =? 0); auto.
+  - destruct K as (K1 & K2).
+    destruct (res_ok_good s L _ _ SI (arr_put_ok s L p idx v I K1 K2 A)) as (s' & ret & evs & E & SI' & SF).
+    exists s', ret, evs. split; [auto|]. split; [|auto]. unfold Ltransfer in SI'. destruct (ret =? 0); auto.
+Qed.
+
+(* every admissible operation succeeds (no undefined behaviour, fuel suffices), keeps the
+   invariant with the documented change of the client's ledger *)
+Theorem step_preserves : forall s L o, SInv s L -> admissible s L o -> step_good s L o.
+Proof.
+  intros s L o SI A. pose proof SI as (I & IDS & NP). destruct o; simpl in A.
+  - apply new_good; auto.
+  - apply get_good; auto.
+  - apply put_good; auto.
+  - destruct A as (K & T). apply (good_of_res_ok s L _ (Ltransfer L v)); auto.
+    apply obj_add_ok; auto.
+  - apply (good_of_res_ok s L _ (fun _ => L)); auto. apply obj_del_ok; auto.
+  - destruct A as (K & T). apply (good_of_res_ok s L _ (Ltransfer L v)); auto. apply arr_add_ok; auto.
+  - destruct A as (K & Z & T). apply (good_of_res_ok s L _ (Ltransfer L v)); auto. apply arr_put_ok; auto.
+  - destruct A as (K & Z & T). apply (good_of_res_ok s L _ (Ltransfer L v)); auto. apply arr_ins_ok; auto.
+  - destruct A as (K & Z & C). apply (good_of_res_ok s L _ (fun _ => L)); auto. apply arr_del_ok; auto.
+  - apply setud_good; auto.
+  - apply copy_good; auto.
+  - apply ptrset_good; auto.
+  - apply use_good; auto.
 Qed.
